@@ -417,6 +417,7 @@ int32_t psEccParsePrivKey(psPool_t *pool,
     int32_t asnInt;
     psSize_t len;
     size_t privkey_len;
+    psBool_t havePubKey = PS_FALSE;
 
     buf = keyBuf;
     end = buf + keyBufLen;
@@ -542,13 +543,15 @@ int32_t psEccParsePrivKey(psPool_t *pool,
             psTraceCrypto("Unable to parse ECC pubkey from cert\n");
             goto L_FAIL;
         }
+        havePubKey = PS_TRUE;
         buf += len;
     }
     /* Try to parse 'implicitly' encoded optional public key with no
        DER header, i.e. assume that all the remaining bytes are public
        key bytes. This is not valid ASN.1, but sometimes appears in
        practice and parsing it is a requirement for some users. */
-    if (buf < end &&
+    if (!havePubKey && /* importing twice would leak the first point */
+        buf < end &&
         *buf == ANSI_UNCOMPRESSED &&                  /* Uncompressed is the only format we support. */
         ((end - (buf + 1)) == privkey_len * 2))       /* Pubkey must be 2x privkey size. */
     {
